@@ -215,8 +215,29 @@ def comma_join_inside_in_subquery(st):
     return bool(hit)
 
 
+def alias_inside_parenthesised_join(st):
+    hit = []
+
+    def chk(frm):
+        sh, rels = frm["shape"], frm["rels"]
+        inner = rels[:2] if sh == "paren_join_join" else rels[1:] if sh == "join_paren_join" else []
+        if any(r.get("alias") for r in inner):
+            hit.append(1)
+
+    def q(qq):
+        for b in qq["branches"]:
+            chk(b["from"])
+
+    sqlgen.walk_queries(st, q)
+    if st.get("from"):
+        chk(st["from"])
+    return bool(hit)
+
+
 def sig_of(st, label, base, obs):
     """minimal-cause style signature of a known deviation: which kind of variant, which kind of new name, what differs"""
+    if alias_inside_parenthesised_join(st) and not label.startswith("AS") and "exception" not in obs and obs.get("source") == base.get("source") and obs.get("target") == base.get("target"):
+        return "alias-inside-parenthesised-join|pairs"
     if comma_join_inside_in_subquery(st) and label.startswith("alias"):
         differs = [k for k in ("source", "target", "intermediate", "pairs") if "exception" in obs or obs.get(k) != base.get(k)]
         return "comma-join-inside-in-subquery|" + label.split(" ")[1] + "|" + "+".join(differs)
